@@ -166,7 +166,9 @@ def realise(case, seed=0):
         # kappa in {1, 4} used as 1/kappa, and an integer-valued conditional halved
         kappa = conditional(ufl.gt(x[0], 0.25), 1, 4)
         c3 = inner(u, v) / kappa + (conditional(ufl.lt(G, 0.5), 1, 3) / 2) * inner(u, v)
-        form = (c1 * inner(u, v) + c2 + c3) * dX
+        # the same argument-dependent product once divided by a coefficient expression and once plain
+        c4 = inner(u, v) / (3 + G * G) + inner(u, v)
+        form = (c1 * inner(u, v) + c2 + c3 + c4) * dX
     elif term == "absmax":
         F, G = ufl.Coefficient(V), coef("P1")
         form = (abs(F) * inner(u, v) + ufl.max_value(F, G) * inner(u, v) + ufl.min_value(F, 2) * inner(u, v)) * dX
@@ -601,6 +603,12 @@ def realise_c05(item):
         # the piecewise-constant coefficient on the '-' side, alone (its single value is addressed directly)
         dg0 = f[kinds.index("DG0")]
         form = form + dg0("-") * v("+") * dS(1) + dg0("-") * dg0("+") * v("-") * dS(2)
+        if cell in ("triangle", "tetrahedron"):
+            # a MIXED-element coefficient (Taylor-Hood) on the '-' side: every sub-element's '-' half starts at the
+            # dimension of the whole element
+            th = ufl.Coefficient(ufl.FunctionSpace(dom, make_element("TH", cell, td)))
+            thu, thp = ufl.split(th)
+            form = form + (thp("-") + 2 * thu[td - 1]("-") + 3 * thp("+")) * v("+") * dS(1)
     elif var % 5 == 4:
         # a constant that vanishes in preprocessing (source term of the differentiated functional) while others
         # survive: the descriptor and the kernels must both keep counting it (original constant order)
